@@ -36,6 +36,12 @@ type Case struct {
 	// PrevRect, when its size is non-zero: the Renderer was pointed at this
 	// rectangle (and drew a path there) before being re-pointed to Rect.
 	PrevRect [4]int `json:"prev_rect,omitempty"`
+	// NoPixels: the target rectangle holds no pixel: Rect's width and/or height are zero or
+	// negative (Min beyond Max, as clipping arithmetic written by hand produces; Rectangle.Empty
+	// reports true). Nothing can be said about the map onto such a rectangle; what is checked is
+	// that the calls are the same ones, that the rasteriser is never given a negative size and
+	// that the path is drawn over a rectangle without pixels.
+	NoPixels bool `json:"no_pixels,omitempty"`
 	// PrevViewBox: the viewBox of that earlier use (zero size = the same viewBox).
 	PrevViewBox [4]ops.F32 `json:"prev_viewbox,omitempty"`
 	// PrevOpen: that earlier use stopped inside its path (a truncated graphic).
@@ -57,6 +63,9 @@ func vbOf(c Case) [4]float32 {
 func checkGeometry(c Case) error {
 	vb := vbOf(c)
 	rect := image.Rect(c.Rect[0], c.Rect[1], c.Rect[0]+c.Rect[2], c.Rect[1]+c.Rect[3])
+	if c.NoPixels {
+		rect = image.Rectangle{Min: image.Pt(c.Rect[0], c.Rect[1]), Max: image.Pt(c.Rect[0]+c.Rect[2], c.Rect[1]+c.Rect[3])} // not canonicalised
+	}
 	rr := &rast.Recorder{NoLattice: true}
 	var z render.Renderer
 	if c.PrevRect[2] > 0 && c.PrevRect[3] > 0 {
@@ -143,10 +152,22 @@ func checkGeometry(c Case) error {
 		}
 		switch call.K {
 		case rast.Reset:
+			if c.NoPixels {
+				if call.W < 0 || call.H < 0 {
+					return harness.Violatef("c05/reset-size", "Reset(%d,%d) for the target rectangle %v, which holds no pixel: a negative size", call.W, call.H, rect)
+				}
+				continue
+			}
 			if call.W != c.Rect[2] || call.H != c.Rect[3] {
 				return harness.Violatef("c05/reset-size", "Reset(%d,%d), target rectangle is %dx%d", call.W, call.H, c.Rect[2], c.Rect[3])
 			}
 		case rast.Draw:
+			if c.NoPixels {
+				if !call.R.Empty() {
+					return harness.Violatef("c05/draw-rect", "Draw(%v) for the target rectangle %v, which holds no pixel", call.R, rect)
+				}
+				continue
+			}
 			if call.R != rect || call.SP != (image.Point{}) {
 				return harness.Violatef("c05/draw-rect", "Draw(%v, sp=%v), expected the target rectangle %v at (0,0)", call.R, call.SP, rect)
 			}
@@ -154,6 +175,9 @@ func checkGeometry(c Case) error {
 				return harness.Violatef("c05/draw-paint", "Draw paint %v, expected opaque black", call.P)
 			}
 		default:
+			if c.NoPixels {
+				continue
+			}
 			// x - Min is one float32 subtraction of two float32 values (error relative to the
 			// difference, however large |x| and |Min| are), then one multiplication: the error is
 			// relative to the pixel magnitudes of the path, and accumulates through the pen
@@ -214,6 +238,23 @@ func genCase(t *rapid.T) Case {
 		c.Rect[0] = (1<<uint(rapid.IntRange(24, 30).Draw(t, "hugex")) + rapid.IntRange(-3, 3).Draw(t, "hugexd")) * rapid.SampledFrom([]int{1, -1}).Draw(t, "hugexs")
 		if rapid.Bool().Draw(t, "hugeboth") {
 			c.Rect[1] = 1<<uint(rapid.IntRange(24, 30).Draw(t, "hugey")) + rapid.IntRange(-3, 3).Draw(t, "hugeyd")
+		}
+	}
+	if rapid.IntRange(0, 15).Draw(t, "nopixels") == 0 {
+		// a target without pixels: a side of zero, or Min beyond Max (a cell clipped away by hand-written max/min)
+		c.NoPixels = true
+		side := func(l string, v int) int {
+			switch rapid.IntRange(0, 2).Draw(t, l) {
+			case 0:
+				return 0
+			case 1:
+				return -rapid.IntRange(1, 600).Draw(t, l+".neg")
+			}
+			return v
+		}
+		c.Rect[2], c.Rect[3] = side("np.w", c.Rect[2]), side("np.h", c.Rect[3])
+		if c.Rect[2] > 0 && c.Rect[3] > 0 {
+			c.Rect[2] = -c.Rect[2]
 		}
 	}
 	c.RectAfterReset = rapid.IntRange(0, 3).Draw(t, "rectafter") == 0
@@ -359,6 +400,12 @@ func classify(c Case) (bool, []string) {
 	}
 	if c.Rect[0] != 0 || c.Rect[1] != 0 {
 		labels = append(labels, "rect-off-origin")
+	}
+	if c.NoPixels {
+		labels = append(labels, "target-rectangle-without-pixels")
+		if c.Rect[2] < 0 || c.Rect[3] < 0 {
+			labels = append(labels, "target-rectangle-with-min-beyond-max")
+		}
 	}
 	if c.RectAfterReset {
 		labels = append(labels, "rectangle-given-after-the-viewbox")
